@@ -269,3 +269,8 @@ CLAIMS["C17"]["text"] += (" Listen sets are generated per local IP as arbitrary 
     "(a deterministic sweep enumerates every >=2-member same-port listen set x reporting member x asking order).")
 CLAIMS["C07"]["text"] += (" Streams are also opened in both directions between the same two hosts (asymmetric handler sets, handler changes and identify pushes on either side, delivered or still in flight) with the opener's protocol knowledge produced by the library alone: "
     "a stream bound to a protocol the remote never served or announced must not be handed out when a requested protocol is common, and no handler may run on the opener (random history search plus a complete enumeration over two protocol IDs).")
+
+CLAIMS["C02"]["text"] += (" Stream layers (yamux adapter, upgrader stack, hosts) are also driven with deadlines under virtual time: write deadlines with a writer that resumes at p[n:] after (n, timeout) against slow readers with payloads above the flow-control window, "
+    "and readers that poll with past or short read deadlines and keep buf[:n]; delivery stays byte-exact, in order, once.")
+CLAIMS["C02"]["note"] += (" Polling readers get at most the initial 256 KiB window of payload, because go-yamux drops a window update whose deadline has expired (a liveness matter of the dependency, outside the statement). No deadlines are generated on the opener end of lazily negotiated streams; "
+    "no write deadlines, and on Noise/pnet no read deadlines, are generated on bare secured connections, because a timed-out frame cannot be resumed there.")
